@@ -66,6 +66,12 @@ theorem simplify_idem (vs : List α) (h : vs.length % 2 = 1) :
   unfold simplify
   rw [simplifiedMapping_of_sep w hsep, applyMapping_range]
 
+/-- The model runs the `while` loop of `get_simplified_mapping` with fuel `len + 1`; this is enough:
+any larger fuel gives the same mapping (the loop condition fails before the fuel runs out). -/
+theorem fuel_adequate (vs : List α) (h : vs.length % 2 = 1) (k : Nat) :
+    mappingLoop vs (vs.length + 1 + k) (List.range vs.length) 0 = simplifiedMapping vs :=
+  loop_fuel vs _ k _ 0 (Inv_init _ h) (by simp; omega) (by omega)
+
 /-! ### update_from_simplified -/
 
 theorem updateFromSimplified_eq (vs s : List α) (hs : s.length = (simplifiedMapping vs).length) :
@@ -135,6 +141,80 @@ theorem flatten_odd (mm : List (List α)) (h : mm.length % 2 = 1)
     exact (flattenFrom_spec first rest d (hall first (by simp)) (by simp at h; omega)
       (fun t ht => hall t (by simp [ht]))).2
 
+/-! ### nesting to any depth -/
+
+/-- conflicts whose terms are themselves conflicts, nested to any depth -/
+inductive NMerge (α : Type) where
+  | leaf : α → NMerge α
+  | node : List (NMerge α) → NMerge α
+
+mutual
+/-- flatten bottom-up with the modelled `flatten` at every level -/
+def flattenDeep : NMerge α → List α
+  | .leaf a => [a]
+  | .node ts => flatten (flattenDeepList ts)
+def flattenDeepList : List (NMerge α) → List (List α)
+  | [] => []
+  | t :: ts => flattenDeep t :: flattenDeepList ts
+end
+
+mutual
+/-- what a nested conflict denotes: sides count positively, bases negatively, at every level -/
+def denote : NMerge α → α → Int
+  | .leaf a, v => ind a v
+  | .node ts, v => denoteList ts 1 v
+def denoteList : List (NMerge α) → Int → α → Int
+  | [], _, _ => 0
+  | t :: ts, s, v => s * denote t v + denoteList ts (-s) v
+end
+
+mutual
+/-- every level has odd arity -/
+def WF : NMerge α → Prop
+  | .leaf _ => True
+  | .node ts => ts.length % 2 = 1 ∧ WFList ts
+def WFList : List (NMerge α) → Prop
+  | [] => True
+  | t :: ts => WF t ∧ WFList ts
+end
+
+theorem length_flattenDeepList (ts : List (NMerge α)) : (flattenDeepList ts).length = ts.length := by
+  induction ts with
+  | nil => simp [flattenDeepList]
+  | cons t ts ih => simp [flattenDeepList, ih]
+
+mutual
+theorem flattenDeep_spec (t : NMerge α) (h : WF t) (v : α) :
+    count (flattenDeep t) v = denote t v ∧ (flattenDeep t).length % 2 = 1 := by
+  match t, h with
+  | .leaf a, _ => simp [flattenDeep, denote, count]
+  | .node ts, h =>
+    simp only [WF] at h
+    obtain ⟨h1, h2⟩ := flattenDeepList_spec ts h.2 v
+    simp only [flattenDeep, denote]
+    have hl : (flattenDeepList ts).length % 2 = 1 := by rw [length_flattenDeepList]; exact h.1
+    exact ⟨by rw [flatten_count _ hl h2, h1 1], flatten_odd _ hl h2⟩
+theorem flattenDeepList_spec (ts : List (NMerge α)) (h : WFList ts) (v : α) :
+    (∀ s, altSum (flattenDeepList ts) s v = denoteList ts s v) ∧
+      ∀ l ∈ flattenDeepList ts, l.length % 2 = 1 := by
+  match ts, h with
+  | [], _ => simp [flattenDeepList, altSum, denoteList]
+  | t :: ts, h =>
+    simp only [WFList] at h
+    obtain ⟨h1, h2⟩ := flattenDeep_spec t h.1 v
+    obtain ⟨h3, h4⟩ := flattenDeepList_spec ts h.2 v
+    simp only [flattenDeepList, altSum, denoteList, List.mem_cons]
+    refine ⟨fun s => by rw [h1, h3], ?_⟩
+    rintro l (rfl | hl)
+    · exact h2
+    · exact h4 l hl
+end
+
+/-- **Flattening a conflict nested to any depth preserves meaning** (every level flattened with
+the modelled `flatten`, innermost first). -/
+theorem flattenDeep_count (t : NMerge α) (h : WF t) (v : α) :
+    count (flattenDeep t) v = denote t v := (flattenDeep_spec t h v).1
+
 /-! ### non-vacuity -/
 
 example : simplify [0, 1, 2, 0, 3] = [3, 1, 2] := by decide
@@ -147,5 +227,12 @@ example : updateFromSimplified [0, 1, 2, 0, 3] [7, 8] = none := by decide
 example : flatten [[4, 3, 5], [2, 1, 0], [7, 6, 8]] = [4, 3, 5, 0, 1, 2, 7, 6, 8] := by decide
 example : altSum [[0, 1, 2], [0, 3, 1], [1]] 1 1 = -1 ∧
     count (flatten [[0, 1, 2], [0, 3, 1], [1]]) 1 = -1 := by decide
+
+/-- a depth-3 nested conflict: well formed, flattens to 7 terms, denotation preserved -/
+def nmEx : NMerge Nat :=
+  .node [.node [.leaf 0, .leaf 1, .leaf 2], .node [.node [.leaf 0, .leaf 3, .leaf 1]], .leaf 1]
+example : WF nmEx := by simp [nmEx, WF, WFList]
+example : flattenDeep nmEx = [0, 1, 2, 1, 3, 0, 1] := by decide
+example : denote nmEx 1 = -1 ∧ count (flattenDeep nmEx) 1 = -1 := by decide
 
 end JjModel.C01
